@@ -9,7 +9,7 @@ import common as C
 import loop_traces as LT
 
 THEORIES = ["Base", "EALoop", "EALoopProofs", "EALoopProofs2", "EAStore", "EAStoreProofs", "LoopCheck",
-            "RandomPrims", "Py", "PyLemmas", "GenLoop", "CodeEqLoop", "CodeEqStep", "CodeEqGreedy"]
+            "RandomPrims", "Py", "PyLemmas", "GenCode", "GenLoop", "CodeEqLoop", "CodeEqStep"]
 TRUSTED = ["translator harness/translate_loop.py (class TheFittest and the scalar stopping logic of EvolutionaryAlgorithm -> gen/GenLoop.v, "
            "regenerated on every run; classes as records, methods as functions on them, -inf as the extended rationals of coq/theories/Py.v); "
            "update_best / terminate / aim_of of the loop model are PROVED equal to the generated definitions (theories/CodeEqLoop.v)",
@@ -22,10 +22,23 @@ DIFF = {1: "number of generations", 2: "evaluation count", 3: "callback count", 
         6: "final population (after elitism)", 7: "history entries"}
 
 
-def gen(ctx):
-    """(T) regenerate gen/GenLoop.v from base/_ea.py in the working tree; fail closed"""
+BASE_CLASSES = ["TheFittest", "EvolutionaryAlgorithm"]
+ADAPT_THEORIES = ["CodeEqGreedy", "Adapt", "AdaptProofs", "CodeEqC07", "CodeEqC11", "CodeEqC15", "CodeEqAdapt", "CodeEqAdaptStep"]
+
+
+def gen(ctx, need=None):
+    """(T) regenerate gen/GenLoop.v (and gen/GenCode.v, which it refers to for find_pbest_id and the update rules) from the working tree;
+    fail closed on the classes the property's theorems are about"""
+    import translate_code as TC
     import translate_loop as TL
-    TL.emit()
+    TC.emit()
+    TL.emit(need=need or BASE_CLASSES)
+
+
+def gen_greedy(ctx):
+    import translate_code as TC
+    gen(ctx, need=BASE_CLASSES + ["DifferentialEvolution", "SHADE", "jDE", "SHAGA"])
+    TC.ensure(["find_pbest_id"] + TC.C15_METHODS)
 
 
 def configs(ctx, n_per_kind, force=None):
